@@ -259,6 +259,25 @@ impl<'a, 'tcx> Mx<'a, 'tcx> {
                                 }
                             }
                         }
+                        // `&str` constants (panic / assertion messages): the text itself
+                        if let ty::Ref(_, inner, _) = t.kind() {
+                            if inner.is_str() {
+                                if let Ok(rustc_middle::mir::ConstValue::Slice { alloc_id, meta }) =
+                                    c.const_.eval(self.tcx, self.env, rustc_span::DUMMY_SP)
+                                {
+                                    if let Some(rustc_middle::mir::interpret::GlobalAlloc::Memory(a)) =
+                                        self.tcx.try_get_global_alloc(alloc_id)
+                                    {
+                                        let a = a.inner();
+                                        let len = meta as usize;
+                                        if len <= a.len() && len <= 400 {
+                                            let bytes = a.inspect_with_uninit_and_ptr_outside_interpreter(0..len);
+                                            v.push(("str", J::Str(String::from_utf8_lossy(bytes).to_string())));
+                                        }
+                                    }
+                                }
+                            }
+                        }
                         let d: String = format!("{:?}", c.const_).chars().take(200).collect();
                         v.push(("dbg", J::Str(d)));
                     }
